@@ -40,7 +40,12 @@ import (
 
 // serveSession serves one session's history: long-lived engine (store=none) or an engine per request over its
 // own store handle. The resource hands out the shared bytecode slices themselves.
-func serveSession(app *eCase, inputs [][]byte, sid string, storeKind, dir string, gate func()) []string {
+func serveSession(shared *eCase, own *eCase, sid string, storeKind, dir string, gate func()) []string {
+	// the session's view of the application: the shared tables and bytecode slices, its own first function
+	view := *shared
+	view.firsts = own.firsts
+	app := &view
+	inputs := own.inputs
 	ncalls := 0
 	cfg := app.config()
 	cfg.SessionId = sid
@@ -57,6 +62,9 @@ func serveSession(app *eCase, inputs [][]byte, sid string, storeKind, dir string
 			ca = ca.WithCacheSize(uint32(app.cache))
 		}
 		en := engine.NewEngine(cfg, rs).WithState(st).WithMemory(ca)
+		if f := rs.firstFunc(); f != nil {
+			en = en.WithFirst(f)
+		}
 		stopped := false
 		for _, in := range inputs {
 			if stopped {
@@ -93,6 +101,9 @@ func serveSession(app *eCase, inputs [][]byte, sid string, storeKind, dir string
 		rs := &recRes{c: app, ncalls: &ncalls, share: true}
 		pe := persist.NewPersister(store)
 		en := engine.NewEngine(cfg, rs).WithPersister(pe)
+		if f := rs.firstFunc(); f != nil {
+			en = en.WithFirst(f)
+		}
 		rec := reqRec{}
 		oneRequest(en, in, &rec)
 		func() {
@@ -191,8 +202,17 @@ func genConcCase(c *Ctx) string {
 		app = hubApp(c)
 		nsess := 2 + c.Rng.Intn(c.Pick(4, 15))
 		var parts []string
+		withFirst := c.Rng.Intn(3) == 0
 		for s := 0; s < nsess; s++ {
 			ec := *app
+			if withFirst {
+				// every session has its own entry function: some are blocked by it, the others greeted by name
+				if s%2 == 0 {
+					ec.firsts = []extRule{{callIdx: -1, content: fmt.Sprintf("account s%d is blocked", s), set: []uint32{6}}}
+				} else {
+					ec.firsts = []extRule{{callIdx: -1, content: ""}}
+				}
+			}
 			ec.inputs = [][]byte{{}}
 			for k := 0; k < 2+c.Rng.Intn(5); k++ {
 				ec.inputs = append(ec.inputs, []byte(strconv.Itoa(1+c.Rng.Intn(5))), []byte([]string{"0", "9", "0", "7"}[c.Rng.Intn(4)]))
@@ -312,7 +332,7 @@ func init() {
 			// sequential reference
 			var seq [][]string
 			for i, ec := range cases {
-				seq = append(seq, serveSession(app, ec.inputs, fmt.Sprintf("s%d", i), storeKind, filepath.Join(work, "seq"), nogate))
+				seq = append(seq, serveSession(app, ec, fmt.Sprintf("s%d", i), storeKind, filepath.Join(work, "seq"), nogate))
 			}
 			restore := func() {
 				for k, b := range app.nodes {
@@ -334,7 +354,7 @@ func init() {
 					go func(i, yield int) {
 						defer wg.Done()
 						<-start
-						res[i] = serveSession(app, cases[i].inputs, fmt.Sprintf("s%d", i), storeKind, dir, func() {
+						res[i] = serveSession(app, cases[i], fmt.Sprintf("s%d", i), storeKind, dir, func() {
 							for y := 0; y < yield; y++ {
 								runtime.Gosched()
 							}
